@@ -192,8 +192,21 @@ def gen_weights(rng, n):
     r = rng.random()
     if r < 0.4:
         return None
-    if r < 0.7:
+    if r < 0.65:
         return [float(rng.randint(1, 4)) for _ in range(n)]
+    if r < 0.75:
+        # genuinely different weights of a very small or very large common magnitude (no absolute tolerance applies to weights)
+        sc_ = rng.choice([2.0**-30, 2.0**-40, 2.0**30])
+        return [float(rng.randint(1, 8)) * sc_ for _ in range(n)]
+    if r < 0.82 and n >= 2:
+        # normalised to mean one: the weights sum to n exactly but are not all equal
+        w = [1.0] * n
+        idx = list(range(n))
+        rng.shuffle(idx)
+        for a, b in zip(idx[0::2], idx[1::2]):
+            d = rng.choice([0.5, 0.25, 0.75])
+            w[a], w[b] = 1 - d, 1 + d
+        return w
     return [rng.choice([0.25, 0.5, 1.0, 2.0, 3.5]) for _ in range(n)]
 
 
